@@ -2,8 +2,11 @@
 package c11
 
 import (
+	"context"
 	"fmt"
 	"strings"
+	"sync"
+	"sync/atomic"
 	"time"
 
 	"github.com/anishathalye/porcupine"
@@ -46,6 +49,27 @@ func gen(seed int64, tier string, idx int) *pipe.Scenario {
 				pipe.Step{AtEvent: 0, Op: "procnewok:pb"}, pipe.Step{AtEvent: 0, Op: "start"}, pipe.Step{AtEvent: 0, Op: "pause"})
 			n = 2
 		}
+		if idx%24 == 12 {
+			// a Start that fails while the plugins are being opened (the LAST source
+			// cannot be opened once) must close what it had opened before: nothing stays
+			// open, and the next Start, with the source available again, has to work
+			if len(sc.Topo.Sources) < 2 {
+				s := sc.Topo.Sources[0]
+				s.ID = "s1"
+				s.Procs = nil
+				sc.Topo.Sources = append(sc.Topo.Sources, s)
+				sc.Records = append(sc.Records, sc.Records[0])
+			}
+			last := len(sc.Topo.Sources) - 1
+			sc.Topo.Sources[last].Src.CallErr = map[string]string{"Open#2": "vf: the source cannot be opened right now"}
+			sc.RecMaxRetries = 0
+			sc.Faults = nil
+			sc.Name = "start-open-failure"
+			sc.Steps = append(sc.Steps, pipe.Step{AtEvent: at, Op: "stopwait"}, pipe.Step{AtEvent: 0, Op: "settlewait"},
+				pipe.Step{AtEvent: 0, Op: "start"}, pipe.Step{AtEvent: 0, Op: "wait"}, pipe.Step{AtEvent: 0, Op: "settlewait"},
+				pipe.Step{AtEvent: 0, Op: "start"}, pipe.Step{AtEvent: 0, Op: "pause"})
+			n = 2
+		}
 		if idx%6 == 3 {
 			// every run ends with a plugin Teardown that reports an error (a processor's
 			// and a destination's): whatever the engine makes of the error, the
@@ -82,6 +106,20 @@ func gen(seed int64, tier string, idx int) *pipe.Scenario {
 			d.Dst.ShapeSess = 1
 		}
 		ops = append(ops, "forcestop", "settlewait")
+		if idx%24 == 13 {
+			// a user Start that is inside the engine (past its own status check, its run
+			// not yet announced) at the very moment the recovery's back-off has elapsed
+			// and the recovery decides whether it still has to restart: issued by harness
+			// actions at the two scheduling points (see hooks)
+			d.Dst.Shape = map[int]string{3 + g.R.Intn(30): "streamerr"}
+			d.Dst.ShapeSess = 1
+			sc.Topo.DLQWindow, sc.Topo.DLQThresh = 0, 0
+			d.Dst.NackIdx = nil
+			sc.RecMinDelayUs, sc.RecMaxDelayUs, sc.RecMaxRetries = 8000, 8000, 3
+			sc.Name = "start-at-backoff-expiry"
+			sc.Steps = append(sc.Steps, pipe.Step{AtEvent: -1, Op: "pause"})
+			n = 0
+		}
 	case "gated-status":
 		// a slow store acknowledgement of every status write keeps the engine inside
 		// UpdateStatus while the next control call proceeds
@@ -99,6 +137,41 @@ func gen(seed int64, tier string, idx int) *pipe.Scenario {
 }
 
 func hooks(sc *pipe.Scenario) *pipe.Hooks {
+	h := opHooks(sc)
+	if strings.Contains(sc.Name, "start-at-backoff-expiry") {
+		h.AfterBuild = func(r *rig.Rig, sc *pipe.Scenario) {
+			if r.Points == nil {
+				return
+			}
+			var once sync.Once
+			var issued, signalled atomic.Bool
+			inside := make(chan struct{})
+			r.Points.On("lifecycle.recover.backoff-elapsed", func() {
+				once.Do(func() {
+					// the harness as a concurrent client: a user Start, issued now
+					issued.Store(true)
+					go func() { _ = r.Start(context.Background(), sc.Topo.Pipeline) }()
+					// pacing: hold the recovery here until that Start is inside the engine
+					select {
+					case <-inside:
+					case <-time.After(300 * time.Millisecond):
+					}
+				})
+			})
+			r.Points.On("lifecycle.start.checked", func() {
+				// the first Start to get here after the user Start was issued is that
+				// Start (the recovery is held at its own point)
+				if issued.Load() && !signalled.Swap(true) {
+					close(inside)
+					time.Sleep(6 * time.Millisecond)
+				}
+			})
+		}
+	}
+	return h
+}
+
+func opHooks(sc *pipe.Scenario) *pipe.Hooks {
 	return &pipe.Hooks{Op: func(r *rig.Rig, sc *pipe.Scenario, op string) bool {
 		switch op {
 		case "await-stopped-status":
@@ -414,6 +487,20 @@ func judge(out *pipe.Outcome, ix *pipe.Index) pipe.Verdict {
 				}
 			}
 		case "Start":
+			if c.err != "" && c.ret > c.ctl {
+				// a Start that failed closes what it opened: every plugin session opened
+				// successfully inside the call is torn down by the end of the history
+				for comp, ss := range sessions {
+					for _, x := range ss {
+						if x.open > c.ctl && x.open < c.ret {
+							v.Stats["sessions_opened_by_a_failed_start_judged"]++
+							if x.tear < 0 && out.Inconclusive == "" {
+								add("failed-start-left-plugin-open", fmt.Sprintf("Start at event %d failed (%s) but the plugin session of %s it had opened (event %d) was never torn down", c.ctl, short(c.err), comp, x.open), c.ctl, x.open)
+							}
+						}
+					}
+				}
+			}
 			if c.err != "" && (strings.Contains(c.err, "another instance of the connector is already running") || strings.Contains(c.err, "connector is running") || strings.Contains(c.err, "processor is running") || strings.Contains(c.err, "already running")) {
 				// only a violation when no run is live and the pipeline is not reported running
 				if liveAt(c.ctl) == nil && statusAt(c.ctl) != "Running" && statusAt(c.ctl) != "Recovering" {
@@ -557,4 +644,11 @@ func init() {
 		Anchors:   []string{"pkg/lifecycle/service.go", "pkg/lifecycle-poc/service.go", "pkg/pipeline/service.go", "pkg/pipeline/instance.go", "pkg/connector/instance.go", "pkg/processor/service.go", "pkg/lifecycle/stream/base.go", "pkg/lifecycle/stream/parallel.go"},
 		Gen:       gen, Judge: judge, Hooks: hooks,
 	})
+}
+
+func short(s string) string {
+	if len(s) > 120 {
+		return s[:120] + "..."
+	}
+	return s
 }
